@@ -7,7 +7,7 @@
    manager.New.  ASSUMED (not modelled): the OS applies create / write / close / remove of a process
    atomically and in program order; the wall clock used for file names is monotone. *)
 From Coq Require Import List NArith.
-Require Import Pk.Persist Pk.PersistProofs.
+Require Import Pk.Persist Pk.PersistProofs Pk.PersistIndexProofs.
 Import ListNotations.
 Open Scope N_scope.
 
@@ -33,10 +33,39 @@ Theorem c12_state_survives_every_crash_point :
        else option_map (fun s => (closes S pre, s)) (nth_error ss (N.to_nat (closes S pre - 1)))).
 Proof. exact state_recovery. Qed.
 
-(* 3. STREAMS: whenever the readable index files, in name order, never show an older version of a
-      stream after a newer one and every published file is complete on disk, a restart shows every
-      stream the running manager showed, under the same id, in that or a newer version. *)
-Theorem c12_restart_shows_memory_or_newer_partial :
+(* 3. STREAMS.  The machine of Persist.v: import job (create file named by the next clock tick with
+      content newer than everything on disk, write magic, publish = append to mgr.indexes), merge job
+      over a suffix mgr.indexes[offset:] (create file named after its newest input -- fixes/C12-1 --
+      with the content the stack of inputs shows, write magic, publish = replace the inputs, then
+      remove the inputs one by one), restart (mgr.indexes := complete files in name order; jobs
+      gone); one import and one merge in flight at most, as in the code.  Every event is one atomic
+      file step or one service-loop closure, so every prefix of a history is a crash point.
+
+      For EVERY event history, stopped at ANY point: a restart shows every stream the running
+      manager shows, under the same id, in that or a newer version ... *)
+Theorem c12_streams_survive_every_crash_point :
+  forall (es : list ev) (id v : N),
+    mem_view (run_m true es) id = Some v ->
+    exists w, restart_view (run_m true es) id = Some w /\ v <= w.
+Proof. exact restart_shows_memory_or_newer_all. Qed.
+
+(* ... namely the newest version that any complete index file holds. *)
+Theorem c12_restart_shows_newest_version_on_disk :
+  forall (es : list ev) (f : ifile N) (id v : N),
+    In f (disk (run_m true es)) -> i_magic f = true -> lookup (i_streams f) id = Some v ->
+    exists w, restart_view (run_m true es) id = Some w /\ v <= w.
+Proof. exact restart_shows_newest_on_disk. Qed.
+
+(* The invariant behind it (PersistIndexProofs.inv): the listing is strictly sorted by name; along the
+   name order the versions of a stream never decrease among complete files; mgr.indexes is sorted by
+   name and all its files are complete; the import's file is the newest name and holds newer versions;
+   the merge output sits directly above its newest input and holds exactly what its inputs show; every
+   complete unpublished file is covered by a published file above it. *)
+Theorem c12_invariant_every_history : forall es, inv (run_m true es).
+Proof. exact run_inv. Qed.
+
+(* The ordering condition in isolation, for any state (patched or not): *)
+Theorem c12_restart_shows_memory_or_newer_if_ordered :
   forall (st : mstate) (id v : N),
     mono (map i_streams (readable (disk st))) ->
     (forall n, In n (mem st) -> is_complete (disk st) n = true) ->
